@@ -1,2 +1,18 @@
 import PyIpmi.Props.C06
-#print axioms PyIpmi.Props.C06.placeholder
+#print axioms PyIpmi.Props.C06.handshake_order
+#print axioms PyIpmi.Props.C06.handshake_order_no_retry
+#print axioms PyIpmi.Props.C06.handshake_conforming
+#print axioms PyIpmi.Props.C06.handshake_bmc
+#print axioms PyIpmi.Props.C06.auth_strength_order
+#print axioms PyIpmi.Props.C06.auth_choice
+#print axioms PyIpmi.Props.C06.auth_choice_cases
+#print axioms PyIpmi.Props.C06.auth_choice_all_subsets
+#print axioms PyIpmi.Props.C06.auth_choice_asShipped_counterexample
+#print axioms PyIpmi.Props.C06.seq_step
+#print axioms PyIpmi.Props.C06.lifecycle_within_budget
+#print axioms PyIpmi.Props.C06.monitor_sees_all
+#print axioms PyIpmi.Props.C06.bmc_never_objects
+#print axioms PyIpmi.Props.C06.session_datagrams
+#print axioms PyIpmi.Props.C06.close_names_sid
+#print axioms PyIpmi.Props.C06.close_again_sends_nothing
+#print axioms PyIpmi.Props.C06.retransmissions_take_next_seq
